@@ -4,11 +4,17 @@ package c03
 
 import (
 	"bytes"
+	"crypto/sha256"
+	"encoding/binary"
 	"errors"
 	"fmt"
+	"hash/adler32"
+	"hash/crc32"
+	"math/rand"
 	"strings"
 	"sync"
 	"sync/atomic"
+	"unicode/utf8"
 
 	"github.com/wollac/iota-crypto-demo/pkg/bip39"
 	"golang.org/x/text/unicode/norm"
@@ -22,7 +28,7 @@ func init() {
 		ID:       "C03",
 		Builds:   []string{"default", "386"}, // the 386 build runs 1/4 of the random classes on a 32-bit target
 		Scale386: 4,
-		Rule: "wordlist: all 2048 indices of both built-in lists are read through EntropyToMnemonic (11 chosen indices per call) and compared with the official lists (embedded, SHA-256 checked against the published digests). encode: both lists x all 13 entropy lengths x {all-zero, all-one, k leading zero bytes for every k, trailing zero bytes, a single set bit at every position, random} plus sizes 0..70 for the size rule; sentence equality with the bit-level model and decode(encode(e)) == e. decode: valid sentences, the last word replaced by every word sharing its entropy bits (exactly one checksum value is accepted), one word replaced, rotations, lengths 0..50, words of the other list, NFC-composed words, empty strings: accept iff the model accepts, entropy equality, re-encode fixed point, error class on reject. concurrent: 8 goroutines encode and decode entropies of all 13 sizes at once under one word list. " +
+		Rule: "wordlist: all 2048 indices of both built-in lists are read through EntropyToMnemonic (11 chosen indices per call) and compared with the official lists (embedded, SHA-256 checked against the published digests). encode: both lists x all 13 entropy lengths x {all-zero, all-one, k leading zero bytes for every k, trailing zero bytes, a single set bit at every position, random} plus sizes 0..70 for the size rule; sentence equality with the bit-level model and decode(encode(e)) == e. decode: valid sentences, the last word replaced by every word sharing its entropy bits (exactly one checksum value is accepted), one word replaced, rotations, lengths 0..50, words of the other list, NFC-composed words, empty strings, and (decode_collide) a list word replaced by a non-word found by search to collide with it under FNV-1a/32, FNV-1/32, CRC-32, CRC-32C, Adler-32, h*31+c, h*33+c, folded FNV-1a/64 or truncated SHA-256: accept iff the model accepts, entropy equality, re-encode fixed point, error class on reject. concurrent: 8 goroutines encode and decode entropies of all 13 sizes at once under one word list. " +
 			"Non-trivial: distinct (list, entropy) with a zero leading byte or more than 32 bytes, and distinct rejected sentences.",
 		Assumptions: []string{"SHA-256 of the Go standard library", "the embedded official word lists (checked against the published SHA-256 digests of english.txt and japanese.txt)", "the bit-level model in harness/oracle/bip39m (self-tested on Trezor vectors)"},
 		SelfTest:    bip39m.SelfTest,
@@ -44,12 +50,15 @@ func init() {
 				m["first_index"] = fw.GetU32(p[1])
 			case "encode":
 				m["entropy"] = fw.Hex(p[1])
+			case "decode_collide":
+				m["words"] = strings.Split(string(p[1]), "\x00")
+				m["one_word_is_a_non_word_colliding_with_the_list_word_in_its_place_under"] = string(p[2])
 			default:
 				m["words"] = strings.Split(string(p[1]), "\x00")
 			}
 			return m
 		},
-		Required: []string{"wordlist indices compared", "encode ok", "encode leading zero byte", "size refused", "decode model=accept impl=accept", "decode model=reject impl=reject", "decode reject: checksum mismatch", "decode reject: word not in list", "decode reject: bad word count"},
+		Required: []string{"sentences with a non-word that collides with a list word under a 32-bit digest", "wordlist indices compared", "encode ok", "encode leading zero byte", "size refused", "decode model=accept impl=accept", "decode model=reject impl=reject", "decode reject: checksum mismatch", "decode reject: word not in list", "decode reject: bad word count"},
 	})
 }
 
@@ -171,7 +180,10 @@ func judge(class string, key []byte, o *fw.Obs) {
 			return
 		}
 		o.Count("encode ok")
-	default: // decode
+	default: // decode, decode_collide
+		if class == "decode_collide" {
+			o.Count("sentences with a non-word that collides with a list word under a 32-bit digest")
+		}
 		var words []string
 		if len(p[1]) > 0 {
 			words = strings.Split(string(p[1]), "\x00")
@@ -439,6 +451,43 @@ func gen(g *fw.Gen) {
 				emitWords(g, l, w)
 			}
 		}
+		// non-words that collide with a list word under a common 32-bit digest (a word index keyed by a
+		// hash of the word that never confirms the string): found by search, put in place of that word in an
+		// otherwise valid sentence. A 64-bit or keyed digest is out of reach of this search.
+		for hi, hf := range digests {
+			if !g.Own(hi+int(l)) && g.Quick() {
+				continue // quick tier: every digest function is searched by one shard per list
+			}
+			table := make(map[uint32]int, 2048)
+			for idx, w := range list.Words {
+				table[hf.f([]byte(w))] = idx
+			}
+			for found, tries := 0, 0; found < g.Pick(3, 12) && tries < 40000000; tries++ {
+				cand := randomNonWord(g.Rng, l)
+				idx, hit := table[hf.f(cand)]
+				if !hit {
+					continue
+				}
+				if _, isWord := list.Index[string(cand)]; isWord {
+					continue
+				}
+				found++
+				e := g.Bytes(16 + 4*g.Rng.Intn(13))
+				j := g.Rng.Intn(len(e) * 8 / 11) // a word whose 11 bits lie entirely in the entropy
+				for b := 0; b < 11; b++ {
+					pos := 11*j + b
+					bit := byte(idx>>uint(10-b)) & 1
+					e[pos/8] = e[pos/8]&^(0x80>>uint(pos%8)) | bit<<uint(7-pos%8)
+				}
+				w := list.Encode(e)
+				if w[j] != list.Words[idx] {
+					panic("c03: bit placement of a chosen word is wrong")
+				}
+				emitWords(g, l, w)
+				w[j] = string(cand)
+				g.Emit("decode_collide", fw.Pack([]byte{l}, []byte(strings.Join(w, "\x00")), []byte(hf.name)))
+			}
+		}
 		for n := g.ShareOf(16, 800); n > 0; n-- {
 			g.Emit("concurrent", fw.Pack([]byte{l}, fw.U64(g.Rng.Uint64())))
 		}
@@ -452,4 +501,76 @@ func gen(g *fw.Gen) {
 		emitOnce([]string{""})
 		emitOnce(make([]string, 12))
 	}
+}
+
+type digest struct {
+	name string
+	f    func([]byte) uint32
+}
+
+var digests = []digest{
+	{"FNV-1a/32", func(b []byte) uint32 {
+		h := uint32(2166136261)
+		for _, c := range b {
+			h = (h ^ uint32(c)) * 16777619
+		}
+		return h
+	}},
+	{"FNV-1/32", func(b []byte) uint32 {
+		h := uint32(2166136261)
+		for _, c := range b {
+			h = h*16777619 ^ uint32(c)
+		}
+		return h
+	}},
+	{"CRC-32 (IEEE)", crc32.ChecksumIEEE},
+	{"CRC-32C (Castagnoli)", func(b []byte) uint32 { return crc32.Checksum(b, castagnoli) }},
+	{"Adler-32", adler32.Checksum},
+	{"h*31+c (Java hashCode)", func(b []byte) uint32 {
+		h := uint32(0)
+		for _, c := range b {
+			h = h*31 + uint32(c)
+		}
+		return h
+	}},
+	{"h*33+c (djb2)", func(b []byte) uint32 {
+		h := uint32(5381)
+		for _, c := range b {
+			h = h*33 + uint32(c)
+		}
+		return h
+	}},
+	{"FNV-1a/64 folded to 32 bits", func(b []byte) uint32 {
+		h := uint64(14695981039346656037)
+		for _, c := range b {
+			h = (h ^ uint64(c)) * 1099511628211
+		}
+		return uint32(h>>32) ^ uint32(h)
+	}},
+	{"first 4 bytes of SHA-256", func(b []byte) uint32 {
+		d := sha256.Sum256(b)
+		return binary.BigEndian.Uint32(d[:4])
+	}},
+}
+
+var castagnoli = crc32.MakeTable(crc32.Castagnoli)
+
+// randomNonWord draws a short string in the script of the list (lower-case letters / hiragana incl. the
+// combining voicing marks).
+func randomNonWord(r *rand.Rand, l byte) []byte {
+	if l == 0 {
+		b := make([]byte, 4+r.Intn(5))
+		for i := range b {
+			b[i] = byte('a' + r.Intn(26))
+		}
+		return b
+	}
+	var out []byte
+	for n := 2 + r.Intn(5); n > 0; n-- {
+		out = utf8.AppendRune(out, rune(0x3042+r.Intn(0x52)))
+		if r.Intn(6) == 0 {
+			out = utf8.AppendRune(out, 0x3099)
+		}
+	}
+	return out
 }
